@@ -1,7 +1,7 @@
 (* C10: the cases written by the correspondence harness, over all mechanism models (definitions only).
    `C0` wraps the cases of Model.v (ring, fixed queue, FastVec with drop-counting elements). *)
 From ZV.Common Require Import Base Run.
-From ZV.C10 Require Import Model ModelValVec32 ModelArena ModelStrVec ModelFixedLen ModelFastVecCopy.
+From ZV.C10 Require Import Model ModelValVec32 ModelArena ModelStrVec ModelFixedLen ModelFastVecCopy ModelCacheVec ModelBitPacked ModelRingBulk.
 Open Scope N_scope.
 
 Inductive case_t : Type :=
@@ -13,7 +13,15 @@ Inductive case_t : Type :=
 (* FixedLenStrVec<n> *)
 | CFix (n : N) (ops : list fop) (expect : list (list Z))
 (* FastVec<T: Copy>: size_of::<T>(), initial capacity *)
-| CVecC (esz c : N) (ops : list tc) (expect : list (list Z)).
+| CVecC (esz c : N) (ops : list tc) (expect : list (list Z))
+(* memory::cache::CacheAlignedVec<T>: counted (false = Copy element type), size_of::<T>(), requested capacity *)
+| CCav (counted : bool) (sz c : N) (ops : list (aop N)) (expect : list (list Z))
+(* BumpVec<T>: capacity *)
+| CBump (c : N) (ops : list (bop N)) (expect : list (list Z))
+(* BitPackedStringVec32 (false) / 64 (true) *)
+| CBitP (w64 : bool) (ops : list pop) (expect : list (list Z))
+(* AutoGrowCircularQueue: a history, then pop_bulk into the slice `out` *)
+| CRingInto (c : N) (pre : list tq) (out : list N) (expect : list Z).
 
 Definition ok (c : case_t) : bool :=
   match c with
@@ -22,4 +30,8 @@ Definition ok (c : case_t) : bool :=
   | CStr ops e => eqb_llz (ssv_trace ssv_new ops) e
   | CFix n ops e => eqb_llz (flv_trace n flv_new ops) e
   | CVecC esz c ops e => eqb_llz (fvc_trace esz (if c =? 0 then fv_new else fv_with_capacity c) ops) e
+  | CCav counted sz c ops e => eqb_llz (cav_trace0 counted sz c ops) e
+  | CBump c ops e => eqb_llz (bv_trace0 c ops) e
+  | CBitP w64 ops e => eqb_llz (bpv_trace w64 bpv_new ops) e
+  | CRingInto c pre out e => eqb_llz [ring_into_trace c pre out] [e]
   end.
